@@ -166,6 +166,8 @@ package encoding
 //@   modifies *b
 
 // ---------------------------------------------------------------- float64LE
+// the eight bytes at position pos are the little-endian IEEE-754 pattern of v
+//@ pred HoldsF64(b *[]byte, pos int, v float64) := (*b)[pos + 0] == byte(f64bits(v) >> 0) && (*b)[pos + 1] == byte(f64bits(v) >> 8) && (*b)[pos + 2] == byte(f64bits(v) >> 16) && (*b)[pos + 3] == byte(f64bits(v) >> 24) && (*b)[pos + 4] == byte(f64bits(v) >> 32) && (*b)[pos + 5] == byte(f64bits(v) >> 40) && (*b)[pos + 6] == byte(f64bits(v) >> 48) && (*b)[pos + 7] == byte(f64bits(v) >> 56)
 //@ func EncodeFloat64LE
 //@   serves C18 C19 C07
 //@   requires b != nil
@@ -179,6 +181,7 @@ package encoding
 //@   ensures byte5: (*b)[old(len(*b)) + 5] == byte(f64bits(v) >> 40)
 //@   ensures byte6: (*b)[old(len(*b)) + 6] == byte(f64bits(v) >> 48)
 //@   ensures byte7: (*b)[old(len(*b)) + 7] == byte(f64bits(v) >> 56)
+//@   ensures holds: HoldsF64(b, old(len(*b)), v)
 //@   ensures alias: arr(*b) == old(arr(*b)) || fresh(arr(*b))
 //@   ensures kept: PrefixKept(b)
 //@   modifies *b, arr(*b)
